@@ -262,6 +262,9 @@ func (server *GripServer) BulkAdd(stream gripql.Edit_BulkAddServer) error {
 			if streamOpen {
 				close(elementStream)
 				streamOpen = false
+				// let the loader finish: a later element for the same graph
+				// must not be written before the ones already sent
+				wg.Wait()
 			}
 			graphName = ""
 			gdb, err := server.getGraphDB(element.Graph)
